@@ -444,7 +444,7 @@ def run_shard(spec):
         nt, cl = check_b(prog, r, s)
         st_.case(["rand", prog, [d[2] for d in r.decisions]], nt, cl, sample={"program": prog, "schedule": sched} if count[0] % 200 == 1 else None)
 
-    res = runner.hyp_search(st.tuples(programs_b(), harness.SCHEDULES), body, seed=runner.derive_seed(seed, ID, i), max_examples=300 if tier == "quick" else 5000)
+    res = runner.hyp_search(st.tuples(programs_b(), harness.SCHEDULES), body, seed=runner.derive_seed(seed, ID, i), max_examples=1500 if tier == "quick" else 12000)
     if res is not None:
         (prog, sched), v = res
         st_.fail({"kind": "random", "program": prog, "schedule": sched}, v.message, v.signature)
